@@ -196,6 +196,35 @@ def run_case(case, seed, st):
         kq = [i for i, x in enumerate(allq) if x is q][0]
         if np.abs(a - D1[kq]).max() > 1e-11 * scale:
             return fail("batch-vs-single", "run_qpoints and DynamicalMatrixNAC.run disagree at q=%s by %.3g" % (q.tolist(), np.abs(a - D1[kq]).max() / scale), None, aniso)
+    # the same q-points and directions handed over in other memory layouts
+    from vtk.alphabet import qsets as QL
+
+    qarr = np.array(allq[-len(gen) - 2:], float)
+    kofs = len(allq) - len(qarr)
+    for lname, qa in QL.layouts(qarr).items():
+        ph.run_qpoints(qa, with_dynamical_matrices=True)
+        Dl = np.array(ph.get_qpoints_dict()["dynamical_matrices"])
+        trans += 1
+        if np.abs(Dl - D1[kofs:]).max() > 1e-11 * scale:
+            return fail("q-layout", "run_qpoints with the q-points as %s gives other dynamical matrices (by %.3g)" % (lname, np.abs(Dl - D1[kofs:]).max() / scale), None, aniso)
+        if isinstance(qa, np.ndarray):
+            dm.run(qa[-1])
+            if np.abs(np.array(dm.dynamical_matrix) - D1[-1]).max() > 1e-11 * scale:
+                return fail("q-layout", "DynamicalMatrixNAC.run(row of a %s array) differs from the same q as a fresh array" % lname, None, aniso)
+    dirs = np.array([d for d in DIRS[-3:]], float)
+    ref_d = []
+    for d in dirs:
+        ph.run_qpoints([[0, 0, 0]], nac_q_direction=d.copy(), with_dynamical_matrices=True)
+        ref_d.append(np.array(ph.get_qpoints_dict()["dynamical_matrices"][0]))
+    for lname, da in QL.layouts(dirs).items():
+        if not isinstance(da, np.ndarray):
+            continue
+        for k_, d in enumerate(dirs):
+            ph.run_qpoints([[0, 0, 0]], nac_q_direction=da[k_], with_dynamical_matrices=True)
+            got = np.array(ph.get_qpoints_dict()["dynamical_matrices"][0])
+            trans += 1
+            if np.abs(got - ref_d[k_]).max() > 1e-11 * scale:
+                return fail("direction-layout", "nac_q_direction given as a row of a %s array gives another D(Gamma)" % lname, None, aniso)
     # without a direction the zone centre itself carries no correction
     e = np.abs(D1[0] - D0[0]).max() / scale
     if e > 1e-10:
